@@ -35,7 +35,8 @@ SX == INSTANCE SequencesExt
 AsSeq(S) == SX!SetToSortSeq(S, LAMBDA a, b : a < b)
 \* only the runes that occur in the chosen patterns plus one foreign rune make interesting texts
 Texts == IF Mode = "valid" THEN {Flat(rs) : rs \in SeqsUpTo({Ra, Rb, Rz, Rs}, MaxText)}
-         ELSE SeqsUpTo({97, 228, 184, 173, 255, 239, 191, 189}, MaxText)
+         ELSE \* 193 161 (C1 A1) is an overlong two-byte form of "a": it must not be read as "a"
+              SeqsUpTo({97, 228, 184, 173, 255, 239, 191, 189, 193, 161}, MaxText)
 
 PatOf(S) == LET q == AsSeq(S) IN [j \in 1..Len(q) |-> Pool[q[j]]]
 IsAt(t, p, i) == i + Len(p) <= Len(t) /\ SubSeq(t, i + 1, i + Len(p)) = p
@@ -47,18 +48,25 @@ Runs(P, t) == LET C == Covered(P, t)
               IN {<<s, EndOf(s), Cardinality({o \in Occ(P, t) : o[2] >= s /\ o[2] < EndOf(s)})>> : s \in starts}
 IsPrefix(k, p) == Len(k) <= Len(p) /\ SubSeq(p, 1, Len(k)) = k
 
+\* build schedules: batches of pattern indices (0 = the empty pattern), failure links rebuilt after every batch.
+\* The queries must give the same answers whichever way the same set was inserted and (re)built: in one batch,
+\* reversed with a duplicate and an empty pattern, or in two batches (either half first) with a build in between.
+Fwd(n) == [i \in 1..n |-> i]
+Schedules(n) == LET h == IF n = 1 THEN 1 ELSE n \div 2 IN
+    << <<Fwd(n)>>, <<[i \in 1..n |-> n + 1 - i] \o <<n, 0>>>>,
+       <<SubSeq(Fwd(n), 1, h), SubSeq(Fwd(n), h + 1, n)>>, <<SubSeq(Fwd(n), h + 1, n), SubSeq(Fwd(n), 1, h)>> >>
 TextCases == \A S \in PatSets : LET P == PatOf(S) IN
     \A t \in Texts :
         LET oc == Occ(P, t) IN
         \* (texts without any occurrence are kept only for the smallest pattern sets: they all look alike)
         (oc # {} \/ Cardinality(S) = 1) =>
-            Emit([fn |-> "text", s |-> t, a |-> P,
+            Emit([fn |-> "text", s |-> t, a |-> P, x |-> Schedules(Len(P)),
                   out |-> [match |-> oc # {}, occ |-> AsSeq({o[1] * 100 + o[2] : o \in oc}),
                            runs |-> AsSeq({r[1] * 10000 + r[2] * 100 + r[3] : r \in Runs(P, t)})]])
 \* keys: every prefix of every pattern of the pool, and a few keys that are no prefix
-KeyPool == UNION {{SubSeq(Pool[i], 1, n) : n \in 0..Len(Pool[i])} : i \in 1..Len(Pool)} \cup {Rb \o Rb, Rz \o Rz, <<228>>, <<228, 184>>, <<255>>, Rg}
+KeyPool == UNION {{SubSeq(Pool[i], 1, n) : n \in 0..Len(Pool[i])} : i \in 1..Len(Pool)} \cup {Rb \o Rb, Rz \o Rz, <<228>>, <<228, 184>>, <<255>>, Rg, <<193, 161>>, <<193, 161, 98>>}
 KeyCases == \A S \in PatSets : LET P == PatOf(S) IN
-    \A k \in KeyPool : Emit([fn |-> "key", s |-> k, a |-> P, out |-> AsSeq({i \in 1..Len(P) : IsPrefix(k, P[i])})])
+    \A k \in KeyPool : Emit([fn |-> "key", s |-> k, a |-> P, x |-> Schedules(Len(P)), out |-> AsSeq({i \in 1..Len(P) : IsPrefix(k, P[i])})])
 
 \* wide tries: the breadth-first construction of the failure links runs through a ring queue that grows; with k
 \* siblings below "a" (and "b" popped first, so the ring is rotated) the growth happens while the queue is wrapped
@@ -66,7 +74,7 @@ WidePats(k) == <<Rb>> \o [i \in 1..k |-> <<97, 98 + i, 120>>]
 WideCases == \A k \in {9, 10, 11, 12, 20} : LET P == WidePats(k) IN
     \A i \in 1..k : \A t \in {<<45, 45>> \o P[i + 1] \o <<45>>, P[i + 1] \o Rb \o P[((i % k) + 1) + 1]} :
         LET oc == Occ(P, t) IN
-        Emit([fn |-> "text", s |-> t, a |-> P,
+        Emit([fn |-> "text", s |-> t, a |-> P, x |-> Schedules(Len(P)),
               out |-> [match |-> oc # {}, occ |-> AsSeq({o[1] * 100 + o[2] : o \in oc}),
                        runs |-> AsSeq({r[1] * 10000 + r[2] * 100 + r[3] : r \in Runs(P, t)})]])
 ASSUME TextCases
